@@ -19,12 +19,10 @@ package bufcheckserverutil
 // Contracts for the gocv verifier (see /verif/DESIGN.md). Comment-only.
 //
 //@ trusted pure interface Request
-//@ trusted pure func bufprotosource.FilePathToFile(files) (m, err)
 //@ trusted pure func bufprotosource.FullNameToEnum(containerDescriptors) (m, err)
 //@ trusted pure func bufprotosource.FullNameToMessage(containerDescriptors) (m, err)
 //@ trusted pure func bufprotosource.FullNameToService(files) (m, err)
-//@ trusted pure func bufprotosource.NameToMethod(service) (m, err)
-//@ trusted pure func bufprotosource.NumberToNameToEnumValue(enum) (m, err)
+// bufprotosource.FilePathToFile / NameToMethod / NumberToNameToEnumValue: pure contracts in /verif/specs/C03_nodelete.spec
 //@ trusted func NewRuleHandler(f) (r)
 //@   ensures r != nil
 //
